@@ -17,6 +17,10 @@ def jobs(tier):
         Job('new_insn_arr.call', H, 'h_new_insn_call', defines=ND, unwind=8, no_standard_checks=True, object_bits=10,
             scope=['vp_on_error', 'vp_ctx_setup'], timeout=600),
     ]
+    for j in J:
+        if not j.enforce:
+            j.count_funcs = {'MIR_new_insn_arr', 'create_insn', 'insn_code_nops', 'MIR_insn_op_mode', 'MIR_insn_nops',
+                             'MIR_get_error_func', 'vp_error_func', 'MIR_malloc', 'vp_malloc'}
     return J
 
 
